@@ -59,10 +59,19 @@ type Event struct {
 	Logs  map[string][][][]int  `json:"logs"`
 	Fnil  map[string]bool       `json:"fnil"`
 	By    map[string][][][]int  `json:"by"`
+	Snaps []Snap                `json:"snaps"`
 	Case  int                   `json:"case"`
 	Sig   map[string]Shape      `json:"sig,omitempty"`
 	Opt   *Opt                  `json:"opt,omitempty"`
 	Init  map[string]string     `json:"init,omitempty"`
+}
+type Snap struct {
+	M    string    `json:"m"`
+	Recs [][][]int `json:"recs"`
+}
+type kept struct {
+	m string
+	v reflect.Value
 }
 type Case struct {
 	Sig   map[string]Shape  `json:"sig"`
@@ -267,6 +276,9 @@ type replay struct {
 	inner  []int
 	depth  int
 	broken string // non-empty: the mock lacks something the driver needs (reported in the event)
+	raw      map[string]reflect.Value // what the MCalls() accessors returned in the last observation
+	retained []kept                   // MCalls() results kept (the slices themselves) to be re-inspected later
+	prevLogs map[string][][][]int
 	by     *replay // bystander: a second instance of the same mock type, called once per method up front
 }
 
@@ -360,32 +372,40 @@ func (r *replay) call(m string, args [][]int) (rep Reply) {
 	return
 }
 
+// project decodes a value returned by MCalls() (a slice of structs) by position
+func (r *replay) project(m string, out reflect.Value) [][][]int {
+	recs := [][][]int{}
+	meth, _ := r.method(m)
+	mt := meth.Type()
+	if out.Kind() != reflect.Slice {
+		return append(recs, [][]int{{undecodable}})
+	}
+	for i := 0; i < out.Len(); i++ {
+		el := out.Index(i)
+		rec := [][]int{}
+		if el.Kind() == reflect.Struct {
+			for j := 0; j < el.NumField(); j++ {
+				variadic := mt.IsVariadic() && j == mt.NumIn()-1 && el.NumField() == mt.NumIn()
+				rec = append(rec, decodeArg(el.Field(j), variadic))
+			}
+		} else {
+			rec = append(rec, []int{undecodable})
+		}
+		recs = append(recs, rec)
+	}
+	return recs
+}
+
 func (r *replay) observe(e *Event) {
 	e.Logs = map[string][][][]int{}
 	e.Fnil = map[string]bool{}
+	r.raw = map[string]reflect.Value{}
 	for _, m := range methods {
 		recs := [][][]int{}
 		if cm, ok := r.method(m + "Calls"); ok && cm.Type().NumIn() == 0 && cm.Type().NumOut() == 1 {
-			meth, _ := r.method(m)
-			mt := meth.Type()
 			out := cm.Call(nil)[0]
-			if out.Kind() == reflect.Slice {
-				for i := 0; i < out.Len(); i++ {
-					el := out.Index(i)
-					rec := [][]int{}
-					if el.Kind() == reflect.Struct {
-						for j := 0; j < el.NumField(); j++ {
-							variadic := mt.IsVariadic() && j == mt.NumIn()-1 && el.NumField() == mt.NumIn()
-							rec = append(rec, decodeArg(el.Field(j), variadic))
-						}
-					} else {
-						rec = append(rec, []int{undecodable})
-					}
-					recs = append(recs, rec)
-				}
-			} else {
-				recs = append(recs, [][]int{{undecodable}})
-			}
+			r.raw[m] = out // the returned slice itself, not a copy
+			recs = r.project(m, out)
 		} else {
 			recs = append(recs, [][]int{{undecodable}})
 			r.broken = "no accessor " + m + "Calls()"
@@ -394,6 +414,25 @@ func (r *replay) observe(e *Event) {
 		fld := r.mock.Elem().FieldByName(m + "Func")
 		e.Fnil[m] = !fld.IsValid() || fld.Kind() != reflect.Func || fld.IsNil()
 	}
+}
+
+// snapshots: re-inspect every retained MCalls() result after the operation, then retain the results of this
+// operation's reads for every method whose log the operation changed to something non-empty
+// (the same rule as MatryerMockContract!SnapsAfter, applied to the observed logs).
+func (r *replay) snapshots(e *Event) {
+	e.Snaps = make([]Snap, 0, len(r.retained))
+	for _, k := range r.retained {
+		e.Snaps = append(e.Snaps, Snap{M: k.m, Recs: r.project(k.m, k.v)})
+	}
+	for _, m := range methods {
+		cur := e.Logs[m]
+		if len(cur) > 0 && !reflect.DeepEqual(cur, r.prevLogs[m]) {
+			if v, ok := r.raw[m]; ok {
+				r.retained = append(r.retained, kept{m, v})
+			}
+		}
+	}
+	r.prevLogs = e.Logs
 }
 
 func norm(e *Event) {
@@ -421,6 +460,21 @@ func norm(e *Event) {
 		for j := range e.Fwd[i].Args {
 			if e.Fwd[i].Args[j] == nil {
 				e.Fwd[i].Args[j] = []int{}
+			}
+		}
+	}
+	if e.Snaps == nil {
+		e.Snaps = []Snap{}
+	}
+	for si := range e.Snaps {
+		if e.Snaps[si].Recs == nil {
+			e.Snaps[si].Recs = [][][]int{}
+		}
+		for i := range e.Snaps[si].Recs {
+			for j := range e.Snaps[si].Recs[i] {
+				if e.Snaps[si].Recs[i][j] == nil {
+					e.Snaps[si].Recs[i][j] = []int{}
+				}
 			}
 		}
 	}
@@ -486,6 +540,7 @@ func (r *replay) step(x *Event) Event {
 	}
 	e.Fwd = r.fwd
 	r.observe(&e)
+	r.snapshots(&e)
 	if r.by != nil {
 		var be Event
 		r.by.observe(&be)
@@ -591,7 +646,7 @@ func main() {
 							continue
 						}
 						id := atomic.AddInt64(&replays, 1)
-						r := &replay{mock: reflect.ValueOf(mk()), c: c}
+						r := &replay{mock: reflect.ValueOf(mk()), c: c, prevLogs: map[string][][][]int{"A": {}, "B": {}}}
 						r.by = &replay{mock: reflect.ValueOf(mk()), c: c}
 						for _, m := range methods {
 							r.by.setFunc(m, "F1")
